@@ -28,6 +28,14 @@ Section Confluence.
   Hypothesis H_cyc : forall l, Permutation (cyc_order l) l.
 
   Notation lookup := (lookup R).
+
+  Lemma stuck_round_diverges_sec : forall t f l, round_items cyc_order t = Ok l ->
+    process_all R infer (t, f) l = Ok (t, f) -> is_empty t = false ->
+    forall n, finish_loop R infer cyc_order n (t, f) = OutOfFuel.
+  Proof.
+    intros t f l Hl Hp Hem. induction n as [|n IH]; [reflexivity|].
+    cbn [finish_loop fst]. rewrite Hl. cbn [bind]. rewrite Hp. cbn [bind fst snd]. rewrite Hem. exact IH.
+  Qed.
   Notation fins := (fins R).
 
   Lemma lookup_none (x : item) (f : fins) : lookup x f = None <-> ~ In x (map fst f).
@@ -96,17 +104,24 @@ Section Confluence.
     rewrite !in_add_pending. tauto.
   Qed.
 
+  (* the abstract state after x's turn *)
+  Definition next_s (s : sched) (x : item) (f : fins) : sched :=
+    match infer x f with
+    | Done _ => a_complete s x
+    | Needs ds => a_register s x ds
+    end.
+
   Lemma process_LI seed t f s x :
     LI seed t f s -> In x (pending s) ->
-    exists t' f' s', process R infer (t, f) x = Ok (t', f') /\ LI seed t' f' s' /\
-      (forall y, In y (pending s) -> y <> x -> In y (pending s')).
+    exists t' f', process R infer (t, f) x = Ok (t', f') /\ LI seed t' f' (next_s s x f) /\
+      (forall y, In y (pending s) -> y <> x -> In y (pending (next_s s x f))).
   Proof.
-    intros [Rp [Hd [Hwf [Hre Hse]]]] Hx. unfold process. cbn [fst snd].
+    intros [Rp [Hd [Hwf [Hre Hse]]]] Hx. unfold process, next_s. cbn [fst snd].
     assert (Hl : lookup x f = None).
     { apply lookup_none. rewrite Hd. exact (R_disj _ _ Rp _ Hx). }
     rewrite Hl. destruct (infer x f) as [r|ds] eqn:Hi.
     - destruct (rep_remove _ _ _ Rp Hx) as [t' [Hr R']]. rewrite Hr. cbn [bind fst].
-      exists t', ((x, r) :: f), (a_complete s x). split; [reflexivity|]. split.
+      exists t', ((x, r) :: f). split; [reflexivity|]. split.
       + split; [exact R'|]. split; [cbn [map fst a_complete done]; rewrite Hd; reflexivity|].
         split; [constructor; assumption|]. split.
         * intros y Hy. apply Hre. cbn [a_complete pending done In] in Hy.
@@ -117,7 +132,7 @@ Section Confluence.
           left. apply filter_In. split; [exact H|]. apply negb_true_iff, N.eqb_neq. exact E.
       + intros y Hy Hne. cbn [a_complete pending]. apply filter_In. split; [exact Hy|].
         apply negb_true_iff, N.eqb_neq. exact Hne.
-    - exists (insert_deps t x ds), f, (a_register s x ds). split; [reflexivity|]. split.
+    - exists (insert_deps t x ds), f. split; [reflexivity|]. split.
       + split.
         * apply rep_insert_deps; [exact Rp|exact Hx|].
           intros c Hc. destruct (H_needs _ _ _ Hi _ Hc) as [_ Hn].
@@ -140,8 +155,8 @@ Section Confluence.
     induction l as [|x l IH]; intros t f s Hli ND Hin; cbn [process_all].
     - exists t, f, s. split; [reflexivity|exact Hli].
     - inversion ND as [|? ? Hnx ND']; subst.
-      destruct (process_LI seed t f s x Hli (Hin _ (or_introl eq_refl))) as [t1 [f1 [s1 [E [L1 Hp]]]]].
-      rewrite E. cbn [bind]. apply (IH t1 f1 s1 L1 ND').
+      destruct (process_LI seed t f s x Hli (Hin _ (or_introl eq_refl))) as [t1 [f1 [E [L1 Hp]]]].
+      rewrite E. cbn [bind]. apply (IH t1 f1 (next_s s x f) L1 ND').
       intros y Hy. apply Hp; [apply Hin; right; exact Hy|]. intros Eq. subst. tauto.
   Qed.
 
@@ -305,6 +320,331 @@ Section Confluence.
     match goal with |- context [is_empty ?t] => destruct (is_empty t) end; [auto|].
     intros H. apply IH; [exact H|lia].
   Qed.
+
+  (* ---------- termination with an explicit bound ---------------------------------------------- *)
+  (* a step that cannot finish asks for at least one dependency *)
+  Hypothesis H_nonempty : forall x f, infer x f <> Needs [].
+
+  Definition msize (s : sched) : nat := length (done s) + length (waits s).
+  (* every registered edge is a real dependency *)
+  Definition Wdeps (s : sched) : Prop := forall p c, In (p, c) (waits s) -> In c (deps p).
+
+  Lemma add_wait_len l w : length l <= length (add_wait l w) /\
+    (~ In w l -> length l < length (add_wait l w)) /\
+    (forall w', In w' (add_wait l w) <-> In w' l \/ w' = w).
+  Proof.
+    unfold add_wait. destruct (memp w l) eqn:E.
+    - apply memp_In in E. split; [lia|]. split; [tauto|].
+      intros w'. split; [tauto|]. intros [H|H]; [exact H|subst; exact E].
+    - rewrite app_length. cbn [length]. split; [lia|]. split; [lia|].
+      intros w'. rewrite in_app_iff. cbn [In]. intuition.
+  Qed.
+
+  Lemma register_waits : forall ds s x,
+    length (waits s) <= length (waits (a_register s x ds)) /\
+    (forall d r, ds = d :: r -> ~ In (x, d) (waits s) ->
+       length (waits s) < length (waits (a_register s x ds))) /\
+    (forall p c, In (p, c) (waits (a_register s x ds)) -> In (p, c) (waits s) \/ (p = x /\ In c ds)).
+  Proof.
+    induction ds as [|c r IH]; intros s x; cbn [a_register fold_left].
+    - split; [lia|]. split; [intros d r H; discriminate|tauto].
+    - fold (a_register (a_reg1 s x c) x r).
+      destruct (IH (a_reg1 s x c) x) as [H1 [_ H3]].
+      destruct (add_wait_len (waits s) (x, c)) as [A1 [A2 A3]].
+      cbn [a_reg1 waits] in *. split; [lia|]. split.
+      + intros d r' E Hn. inversion E; subst. specialize (A2 Hn). lia.
+      + intros p c' H. apply H3 in H. destruct H as [H|[H H']]; [|right; split; [exact H|right; exact H']].
+        apply A3 in H. destruct H as [H|H]; [tauto|]. inversion H; subst. right. split; [reflexivity|left; reflexivity].
+  Qed.
+
+  Lemma ready_not_waiting s x d : readyb s x = true -> In (x, d) (waits s) -> In d (done s).
+  Proof.
+    intros H Hw. unfold readyb in H. rewrite forallb_forall in H. specialize (H _ Hw).
+    cbn [fst snd] in H. rewrite N.eqb_refl in H. cbn [implb] in H. apply memb_In. exact H.
+  Qed.
+
+  Lemma next_s_facts seed t f s x :
+    LI seed t f s -> Wdeps s ->
+    Wdeps (next_s s x f) /\ msize s <= msize (next_s s x f) /\
+    (readyb s x = true -> msize s < msize (next_s s x f)).
+  Proof.
+    intros [Rp [Hd _]] Hw. unfold next_s, msize. destruct (infer x f) as [r|ds] eqn:Hi.
+    - cbn [a_complete done waits length]. split; [exact Hw|]. split; lia.
+    - rewrite done_register. destruct (register_waits ds s x) as [H1 [H2 H3]]. split.
+      + intros p c H. apply H3 in H. destruct H as [H|[H H']]; [auto|].
+        subst p. destruct (H_needs _ _ _ Hi _ H') as [Hdep _]. exact Hdep.
+      + split; [lia|]. intros Hr. destruct ds as [|d r]; [exfalso; exact (H_nonempty _ _ Hi)|].
+        assert (Hn : ~ In (x, d) (waits s)).
+        { intros Hin. apply (ready_not_waiting _ _ _ Hr) in Hin.
+          destruct (H_needs _ _ _ Hi d (or_introl eq_refl)) as [_ Hl].
+          apply lookup_none in Hl. rewrite Hd in Hl. tauto. }
+        specialize (H2 d r eq_refl Hn). lia.
+  Qed.
+
+  Lemma process_all_LI2 seed : forall l t f s,
+    LI seed t f s -> Wdeps s -> NoDup l -> (forall x, In x l -> In x (pending s)) ->
+    exists t' f' s', process_all R infer (t, f) l = Ok (t', f') /\ LI seed t' f' s' /\ Wdeps s' /\
+      msize s <= msize s' /\
+      (forall x r, l = x :: r -> readyb s x = true -> msize s < msize s').
+  Proof.
+    induction l as [|x l IH]; intros t f s Hli Hw ND Hin; cbn [process_all].
+    - exists t, f, s. split; [reflexivity|]. split; [exact Hli|]. split; [exact Hw|]. split; [lia|].
+      intros x r E; discriminate.
+    - inversion ND as [|? ? Hnx ND']; subst.
+      destruct (process_LI seed t f s x Hli (Hin _ (or_introl eq_refl))) as [t1 [f1 [E [L1 Hp]]]].
+      destruct (next_s_facts seed t f s x Hli Hw) as [W1 [M1 M2]].
+      rewrite E. cbn [bind].
+      destruct (IH t1 f1 (next_s s x f) L1 W1 ND') as [t2 [f2 [s2 [E2 [L2 [W2 [M3 _]]]]]]].
+      { intros y Hy. apply Hp; [apply Hin; right; exact Hy|]. intros Eq. subst. tauto. }
+      exists t2, f2, s2. split; [exact E2|]. split; [exact L2|]. split; [exact W2|]. split; [lia|].
+      intros x' r E' Hr. inversion E'; subst. specialize (M2 Hr). lia.
+  Qed.
+
+  Lemma wf_nodup : forall f, WF f -> NoDup (map fst f).
+  Proof.
+    induction 1 as [|x r f Hwf IH Hn Hi]; cbn [map fst]; constructor; [|exact IH].
+    apply lookup_none. exact Hn.
+  Qed.
+
+  Definition bound (U : list item) : nat := length U + length U * length U.
+
+  Lemma msize_bound seed U t f s :
+    LI seed t f s -> (forall x, Reach seed x -> In x U) -> msize s <= bound U.
+  Proof.
+    intros [Rp [Hd [Hwf [Hre _]]]] HU. unfold msize, bound.
+    assert (H1 : length (done s) <= length U).
+    { apply NoDup_incl_length; [rewrite <- Hd; apply wf_nodup; exact Hwf|].
+      intros x Hx. apply HU, Hre. right. exact Hx. }
+    assert (H2 : length (waits s) <= length (list_prod U U)).
+    { apply NoDup_incl_length; [exact (R_wnodup _ _ Rp)|].
+      intros [p c] Hw. destruct (R_wdom _ _ Rp _ _ Hw) as [Hp Hc].
+      apply in_prod; apply HU, Hre; assumption. }
+    rewrite prod_length in H2. lia.
+  Qed.
+
+  Lemma min_rank : forall l : list item, l <> [] ->
+    exists x, In x l /\ forall y, In y l -> rank x <= rank y.
+  Proof.
+    induction l as [|a l IH]; intros H; [congruence|].
+    destruct l as [|b l'].
+    - exists a. split; [left; reflexivity|]. intros y [Hy|[]]. subst. lia.
+    - destruct IH as [x [Hx Hmin]]; [discriminate|].
+      destruct (le_lt_dec (rank a) (rank x)) as [Hle|Hlt].
+      + exists a. split; [left; reflexivity|]. intros y [Hy|Hy]; [subst; lia|].
+        specialize (Hmin _ Hy). lia.
+      + exists x. split; [right; exact Hx|]. intros y [Hy|Hy]; [subst; lia|auto].
+  Qed.
+
+  (* with acyclic real dependencies a cycle-breaking round never happens *)
+  Lemma ready_exists t s : Rep t s -> Wdeps s -> pending s <> [] -> ready s <> [].
+  Proof.
+    intros Rp Hw Hne. destruct (min_rank _ Hne) as [x [Hx Hmin]].
+    assert (Hr : readyb s x = true).
+    { unfold readyb. apply forallb_forall. intros [p c] Hin. cbn [fst snd].
+      destruct (N.eqb_spec p x) as [E|E]; [|reflexivity]. subst p. cbn [implb].
+      apply memb_In. pose proof (H_rank _ _ (Hw _ _ Hin)) as Hlt.
+      destruct (R_wdom _ _ Rp _ _ Hin) as [_ [Hc|Hc]]; [|exact Hc].
+      specialize (Hmin _ Hc). lia. }
+    intros E. assert (Hin : In x (ready s)) by (apply filter_In; split; assumption).
+    rewrite E in Hin. destruct Hin.
+  Qed.
+
+  Lemma round_items_ready t s : Rep t s -> ready s <> [] -> round_items cyc_order t = Ok (ready s).
+  Proof.
+    intros Rp Hne. unfold round_items. rewrite (peek_all_exact _ _ Rp).
+    destruct (ready s) as [|a l]; [congruence|]. cbn [is_nil]. rewrite andb_false_r. reflexivity.
+  Qed.
+
+  Lemma finish_loop_terminates seed U :
+    (forall x, Reach seed x -> In x U) ->
+    forall n t f s, LI seed t f s -> Wdeps s -> is_empty t = false ->
+      bound U - msize s < n ->
+      exists fo, finish_loop R infer cyc_order n (t, f) = Ok fo.
+  Proof.
+    intros HU. induction n as [|n IH]; intros t f s Hli Hw Hem Hlt; [lia|].
+    cbn [finish_loop fst]. destruct Hli as [Rp Hrest].
+    assert (Hne : pending s <> []).
+    { rewrite is_empty_keys, (R_keys _ _ Rp) in Hem. destruct (pending s); discriminate. }
+    pose proof (ready_exists _ _ Rp Hw Hne) as Hrd.
+    rewrite (round_items_ready _ _ Rp Hrd). cbn [bind].
+    destruct (process_all_LI2 seed (ready s) t f s (conj Rp Hrest) Hw) as [t1 [f1 [s1 [E [L1 [W1 [M1 M2]]]]]]].
+    { apply NoDup_filter. exact (R_nodup _ _ Rp). }
+    { intros x Hx. apply filter_In in Hx. tauto. }
+    rewrite E. cbn [bind fst snd]. destruct (is_empty t1) eqn:Em1; [eauto|].
+    apply (IH t1 f1 s1 L1 W1 Em1).
+    pose proof (msize_bound seed U t1 f1 s1 L1 HU) as Hb.
+    destruct (ready s) as [|x r] eqn:Er; [congruence|].
+    assert (Hrx : readyb s x = true).
+    { assert (Hin : In x (ready s)) by (rewrite Er; left; reflexivity).
+      unfold ready in Hin. apply filter_In in Hin. tauto. }
+    specialize (M2 x r eq_refl Hrx). lia.
+  Qed.
+
+  (* Termination: if everything reachable from the seed lies in the finite list U, the loop
+     returns within |U| + |U|^2 + 1 rounds (each round completes an item or registers a new
+     dependency edge). *)
+  Theorem finish_terminates : forall seed U,
+    (forall x, Reach seed x -> In x U) ->
+    exists f, finish R infer cyc_order seed (S (bound U)) = Ok f.
+  Proof.
+    intros seed U HU. unfold finish. destruct (is_empty (extend empty seed)) eqn:Em; [eauto|].
+    apply (finish_loop_terminates seed U HU (S (bound U)) _ _ (a_seed seed)); [| |exact Em|lia].
+    - split; [apply rep_seed|]. split; [reflexivity|]. split; [constructor|]. split.
+      + intros x [Hx|[]]. apply Reach_seed. apply pending_seed. exact Hx.
+      + intros x Hx. left. apply in_pending_seed. exact Hx.
+    - intros p c [].
+  Qed.
+
+  (* confluence with the fuel replaced by the explicit bound *)
+  Theorem schedule_confluent_bounded : forall seed1 seed2 U,
+    Permutation seed1 seed2 ->
+    (forall x, Reach seed1 x -> In x U) ->
+    exists f1 f2,
+      finish R infer cyc_order seed1 (S (bound U)) = Ok f1 /\
+      finish R infer cyc_order seed2 (S (bound U)) = Ok f2 /\
+      forall x, lookup x f1 = lookup x f2.
+  Proof.
+    intros seed1 seed2 U P HU.
+    destruct (finish_terminates seed1 U HU) as [f1 F1].
+    destruct (finish_terminates seed2 U) as [f2 F2].
+    { intros x Hx. apply HU. apply (reach_perm seed2); [apply Permutation_sym; exact P|exact Hx]. }
+    exists f1, f2. split; [exact F1|]. split; [exact F2|].
+    eapply schedule_confluent; eauto.
+  Qed.
+
+  (* ---------- the loop hangs iff it reaches a round that changes nothing ---------------------- *)
+  (* (no acyclicity / progress hypothesis is used from here on) *)
+  Lemma register_no_progress : forall ds t s x,
+    Rep t s -> In x (pending s) -> (forall c, In c ds -> ~ In c (done s)) ->
+    length (waits (a_register s x ds)) = length (waits s) ->
+    insert_deps t x ds = t.
+  Proof.
+    induction ds as [|c r IH]; intros t s x Rp Hx Hd Hlen; [reflexivity|].
+    cbn [insert_deps a_register fold_left] in *.
+    fold (insert_deps (insert_dep t x c) x r). fold (a_register (a_reg1 s x c) x r) in Hlen.
+    destruct (register_waits r (a_reg1 s x c) x) as [H1 _].
+    destruct (add_wait_len (waits s) (x, c)) as [A1 [A2 _]]. cbn [a_reg1 waits] in *.
+    assert (Hin : In (x, c) (waits s)).
+    { destruct (in_dec (fun a b : item * item => ltac:(decide equality; apply N.eq_dec)) (x, c) (waits s)) as [H|H];
+        [exact H|]. specialize (A2 H). lia. }
+    assert (Hnd : ~ In c (done s)) by (apply Hd; left; reflexivity).
+    assert (Hc : In c (pending s)) by (destruct (R_wdom _ _ Rp _ _ Hin) as [_ [H|H]]; tauto).
+    assert (Hk : In c (keys t)) by (rewrite (R_keys _ _ Rp); exact Hc).
+    destruct (keys_get _ _ Hk) as [d G].
+    assert (Hp : In x (parents d)) by (eapply (R_par2 _ _ Rp); eauto).
+    assert (E : insert_dep t x c = t).
+    { unfold insert_dep. rewrite G, (proj2 (memb_In _ _) Hp). reflexivity. }
+    pose proof (rep_insert_dep t s x c Rp Hx Hnd) as Rp'. rewrite E in *.
+    apply (IH t (a_reg1 s x c) x Rp').
+    - cbn [a_reg1 pending]. rewrite !in_add_pending. tauto.
+    - intros c' Hc'. cbn [a_reg1 done]. apply Hd. right. exact Hc'.
+    - cbn [a_reg1 waits]. lia.
+  Qed.
+
+  Lemma step_msize seed t f s x :
+    LI seed t f s -> In x (pending s) ->
+    msize s <= msize (next_s s x f) /\
+    (msize (next_s s x f) = msize s -> process R infer (t, f) x = Ok (t, f)).
+  Proof.
+    intros [Rp [Hd _]] Hx. unfold next_s, msize, process. cbn [fst snd].
+    assert (Hl : lookup x f = None).
+    { apply lookup_none. rewrite Hd. exact (R_disj _ _ Rp _ Hx). }
+    rewrite Hl. destruct (infer x f) as [r|ds] eqn:Hi.
+    - cbn [a_complete done waits length]. split; [lia|]. intros H. lia.
+    - rewrite done_register. destruct (register_waits ds s x) as [H1 _]. split; [lia|].
+      intros H. rewrite (register_no_progress ds t s x Rp Hx); [reflexivity| |lia].
+      intros c Hc. destruct (H_needs _ _ _ Hi _ Hc) as [_ Hn]. apply lookup_none in Hn.
+      rewrite Hd in Hn. exact Hn.
+  Qed.
+
+  Lemma process_all_LI3 seed : forall l t f s,
+    LI seed t f s -> NoDup l -> (forall x, In x l -> In x (pending s)) ->
+    exists t' f' s', process_all R infer (t, f) l = Ok (t', f') /\ LI seed t' f' s' /\
+      msize s <= msize s' /\ (msize s' = msize s -> t' = t /\ f' = f).
+  Proof.
+    induction l as [|x l IH]; intros t f s Hli ND Hin; cbn [process_all].
+    - exists t, f, s. split; [reflexivity|]. split; [exact Hli|]. split; [lia|]. tauto.
+    - inversion ND as [|? ? Hnx ND']; subst.
+      pose proof (Hin _ (or_introl eq_refl)) as Hx.
+      destruct (process_LI seed t f s x Hli Hx) as [t1 [f1 [E [L1 Hp]]]].
+      destruct (step_msize seed t f s x Hli Hx) as [M1 M2].
+      rewrite E. cbn [bind].
+      destruct (IH t1 f1 (next_s s x f) L1 ND') as [t2 [f2 [s2 [E2 [L2 [M3 M4]]]]]].
+      { intros y Hy. apply Hp; [apply Hin; right; exact Hy|]. intros Eq. subst. tauto. }
+      exists t2, f2, s2. split; [exact E2|]. split; [exact L2|]. split; [lia|].
+      intros Heq. assert (Ha : msize (next_s s x f) = msize s) by lia.
+      specialize (M2 Ha). rewrite M2 in E. inversion E; subst t1 f1.
+      apply M4. lia.
+  Qed.
+
+  Inductive RoundStep : topo * fins -> topo * fins -> Prop :=
+  | RS_intro t f l st' : round_items cyc_order t = Ok l -> process_all R infer (t, f) l = Ok st' ->
+      is_empty (fst st') = false -> RoundStep (t, f) st'.
+  Inductive Reaches : topo * fins -> topo * fins -> Prop :=
+  | Reaches_refl st : Reaches st st
+  | Reaches_step st st1 st2 : RoundStep st st1 -> Reaches st1 st2 -> Reaches st st2.
+
+  Definition StuckRound (st : topo * fins) : Prop :=
+    exists l, round_items cyc_order (fst st) = Ok l /\ process_all R infer st l = Ok st /\
+              is_empty (fst st) = false.
+
+  Lemma diverges_back st st' : RoundStep st st' ->
+    (forall n, finish_loop R infer cyc_order n st' = OutOfFuel) ->
+    forall n, finish_loop R infer cyc_order n st = OutOfFuel.
+  Proof.
+    intros H Hd n. destruct H as [t f l st' Hl Hp Hem]. destruct n as [|n]; [reflexivity|].
+    cbn [finish_loop fst]. rewrite Hl. cbn [bind]. rewrite Hp. cbn [bind]. rewrite Hem. apply Hd.
+  Qed.
+
+  Lemma stuck_reachable_diverges st st' : Reaches st st' -> StuckRound st' ->
+    forall n, finish_loop R infer cyc_order n st = OutOfFuel.
+  Proof.
+    induction 1 as [st|st st1 st2 Hs Hr IH]; intros Hst.
+    - destruct st as [t f]. destruct Hst as [l [Hl [Hp Hem]]]. cbn [fst] in *.
+      apply (stuck_round_diverges_sec t f l); assumption.
+    - apply (diverges_back _ _ Hs). apply IH. exact Hst.
+  Qed.
+
+  Lemma out_of_fuel_stuck seed U :
+    (forall x, Reach seed x -> In x U) ->
+    forall n t f s, LI seed t f s -> is_empty t = false -> bound U - msize s < n ->
+      finish_loop R infer cyc_order n (t, f) = OutOfFuel ->
+      exists st', Reaches (t, f) st' /\ StuckRound st'.
+  Proof.
+    intros HU. induction n as [|n IH]; intros t f s Hli Hem Hlt Hout; [lia|].
+    cbn [finish_loop fst] in Hout. destruct Hli as [Rp Hrest].
+    assert (Hne : pending s <> []).
+    { rewrite is_empty_keys, (R_keys _ _ Rp) in Hem. destruct (pending s); discriminate. }
+    destruct (round_items_total _ _ Rp Hne) as [l El]. rewrite El in Hout. cbn [bind] in Hout.
+    destruct (round_items_ok _ _ _ Rp El) as [ND Hin].
+    destruct (process_all_LI3 seed l t f s (conj Rp Hrest) ND Hin) as [t1 [f1 [s1 [E [L1 [M1 M2]]]]]].
+    rewrite E in Hout. cbn [bind fst snd] in Hout.
+    destruct (is_empty t1) eqn:Em1; [discriminate|].
+    destruct (Nat.eq_dec (msize s1) (msize s)) as [Heq|Hneq].
+    - destruct (M2 Heq) as [Et Ef]. subst t1 f1.
+      exists (t, f). split; [constructor|]. exists l. cbn [fst]. auto.
+    - pose proof (msize_bound seed U t1 f1 s1 L1 HU) as Hb.
+      destruct (IH t1 f1 s1 L1 Em1) as [st' [Hr Hs]]; [lia|exact Hout|].
+      exists st'. split; [|exact Hs]. apply (Reaches_step _ (t1, f1)); [|exact Hr].
+      apply (RS_intro t f l (t1, f1)); assumption.
+  Qed.
+
+  (* Started from the seed, the loop runs out of every fuel iff it reaches a round that leaves
+     its whole state (worklist and finished results) unchanged. *)
+  Theorem finish_hangs_iff_stuck_round : forall seed U,
+    (forall x, Reach seed x -> In x U) ->
+    is_empty (extend empty seed) = false ->
+    ((forall n, finish R infer cyc_order seed n = OutOfFuel) <->
+     exists st', Reaches (extend empty seed, []) st' /\ StuckRound st').
+  Proof.
+    intros seed U HU Hem. unfold finish. rewrite Hem. split.
+    - intros Hall.
+      apply (out_of_fuel_stuck seed U HU (S (bound U)) _ _ (a_seed seed)); [|exact Hem|lia|apply Hall].
+      split; [apply rep_seed|]. split; [reflexivity|]. split; [constructor|]. split.
+      + intros x [Hx|[]]. apply Reach_seed. apply pending_seed. exact Hx.
+      + intros x Hx. left. apply in_pending_seed. exact Hx.
+    - intros [st' [Hr Hs]]. apply (stuck_reachable_diverges _ _ Hr Hs).
+  Qed.
 End Confluence.
 
 (* ---------- the hypotheses are satisfiable: a canonical inference step ----------------------- *)
@@ -364,4 +704,19 @@ Lemma canon_ok : forall (R : Type) (deps : item -> list item) (comb : item -> li
      forall d, In d ds -> In d (deps x) /\ lookup R d f = None).
 Proof.
   intros R deps comb. split; [apply canon_det|]. split; [apply canon_done|apply canon_needs].
+Qed.
+
+(* ---------- a round that changes nothing makes the loop spin forever ------------------------- *)
+Lemma stuck_round_diverges (R : Type) (infer : item -> list (item * R) -> step R) cyc_order :
+  forall t f l, round_items cyc_order t = Ok l ->
+    process_all R infer (t, f) l = Ok (t, f) -> is_empty t = false ->
+    forall n, finish_loop R infer cyc_order n (t, f) = OutOfFuel.
+Proof.
+  intros t f l Hl Hp Hem. induction n as [|n IH]; [reflexivity|].
+  cbn [finish_loop fst]. rewrite Hl. cbn [bind]. rewrite Hp. cbn [bind fst snd]. rewrite Hem. exact IH.
+Qed.
+
+Lemma canon_nonempty (R : Type) deps comb : forall x f, canon_infer R deps comb x f <> Needs [].
+Proof.
+  intros x f. unfold canon_infer. destruct (filter (unfinished R f) (deps x)); discriminate.
 Qed.
